@@ -75,6 +75,8 @@ def gen_join_scenario(rng, variant, tier, style=None, stop=False):
         if variant == 1 and rng.random() < 0.34:
             J = 70000          # beyond a 16-bit preallocation limit; unite only (whole slices, a few dozen puts)
         n = 2 * J + rng.randrange(1, J)
+        if J >= 70000:
+            n = J + rng.randrange(1, J // 4)      # one full slice and a remainder are enough there
     Tm = max(T, 40 * unit)
     gaps = [0, 0, 0, 2 * unit, 20 * unit, Tm // 2, Tm, Tm + (ivl or 0), 3 * Tm]
     if style == "bigjoin":
@@ -146,6 +148,11 @@ def gen_join_scenario(rng, variant, tier, style=None, stop=False):
             first_out = sum(d for d, _ in prod[:J])
             cons = [(first_out + 50 * Tm, 0)]
             stop_at = (first_out + rng.choice([2, 6, 20]) * unit) // 2 * 2 + 7
+            if rng.random() < 0.5:
+                # ... and the producer closes the input before Stop() arrives: the final flush must not write the held slice again
+                prod = prod[:J + rng.randrange(1, J + 1)]
+                close_after = 2 * unit
+                stop_at = (sum(d for d, _ in prod) + close_after + rng.choice([2, 6, 20]) * unit) // 2 * 2 + 7
         if stop == "closedfull":
             # copy mode, a consumer that takes the first slice and then stalls: the second full slice sits unread in the output
             # buffer, a partial slice is accumulated, the input is closed (the final flush cannot be written), then Stop()
